@@ -280,7 +280,7 @@ func Explore(scn *Scenario, o ExploreOpts) *Stats {
 		wg.Add(1)
 		go func() {
 			defer wg.Done()
-			cmd := exec.Command(os.Args[0])
+			cmd := exec.Command(os.Args[0], os.Args[1:]...)
 			cmd.Env = append(os.Environ(), "VRT_WORKER=1", fmt.Sprintf("VRT_DEADLINE=%d", o.Deadline.Unix()), fmt.Sprintf("VRT_RECHECK=%d", o.Recheck), fmt.Sprintf("VRT_MAXVIOL=%d", o.MaxViol), "GOMAXPROCS=1", "GOGC="+envOr("VRT_WORKER_GOGC", "400"), "GODEBUG="+envOr("VRT_WORKER_GODEBUG", ""))
 			cmd.Stderr = os.Stderr
 			in, _ := cmd.StdinPipe()
@@ -461,7 +461,7 @@ func ExploreMany(scns []*Scenario, o ExploreOpts) ([]*Stats, string) {
 		wg.Add(1)
 		go func() {
 			defer wg.Done()
-			cmd := exec.Command(os.Args[0])
+			cmd := exec.Command(os.Args[0], os.Args[1:]...)
 			cmd.Env = append(os.Environ(), "VRT_WORKER=1", fmt.Sprintf("VRT_DEADLINE=%d", o.Deadline.Unix()), fmt.Sprintf("VRT_RECHECK=%d", o.Recheck), fmt.Sprintf("VRT_MAXVIOL=%d", o.MaxViol), "GOMAXPROCS=1", "GOGC="+envOr("VRT_WORKER_GOGC", "400"), "GODEBUG="+envOr("VRT_WORKER_GODEBUG", ""))
 			cmd.Stderr = os.Stderr
 			in, _ := cmd.StdinPipe()
